@@ -314,9 +314,10 @@ def eval_case(case):
             bad("amplitude-missing", f"no amplitude {sym}")
         else:
             exprs[("amp", str(sym))] = model.amplitudes[sym]
-    extra = [str(a) for a in model.amplitudes if a not in set(amp_syms.values())]
-    if extra:
-        bad("amplitude-extra", f"amplitudes without transitions: {extra[:3]}")
+    # entries for outer combinations without any transition must be the empty sum, 0
+    extra = [a for a in model.amplitudes if a not in set(amp_syms.values())]
+    for a in extra:
+        exprs[("extra", str(a))] = model.amplitudes[a]
     int_names = {tau: "I_{" + generate_transition_label(t) + "}" for tau, t in first_of_tau.items()}
     for tau, name in int_names.items():
         if name not in model.components:
@@ -428,6 +429,11 @@ def eval_case(case):
         n_eval += 1
         if not _close(got, ref_amp[key]):
             bad("amplitude-sum", f"{sym}: max dev {np.max(np.abs(got - ref_amp[key])):.3g}", symbol=str(sym))
+    for a in extra:
+        got = shaped(lib_vals[("extra", str(a))], K)
+        n_eval += 1
+        if not _close(got, np.zeros((K, G))):
+            bad("amplitude-extra", f"{a} has no transition but is not zero (max {np.max(np.abs(got)):.3g})")
     # ---- (b) I components
     by_tau = {}
     for (tau, _topo), amp in ref_amp.items():
